@@ -322,6 +322,12 @@ func (o *Oracles) onEvent(w *World, e *Event) {
 						cls = "ack-repeat"
 					}
 					w.violate("C04", cls, fmt.Sprintf("source %s session %d: ack #%d is for record %d, expected record %d (acks must follow read order with no gaps or repeats)", e.Ent, e.Sess, s.acked+1, id.Idx, s.emitted[s.acked]))
+					if cls == "ack-gap" && !hostile && w.cfg.accountingChainAny(id.Src) {
+						// C08: with filtering / splitting / erroring / short-answering / conditional
+						// processors in the chain a record that the acks pass over has ended with no
+						// outcome at all (neither acknowledged nor dead-lettered nor the run stopped at it)
+						w.violate("C08", "record-without-outcome", fmt.Sprintf("source %s session %d: record %d was passed over - record %d was acknowledged while it has neither been acknowledged nor dead-lettered nor stopped the pipeline: every source record ends with exactly one outcome", e.Ent, e.Sess, s.emitted[s.acked], id.Idx))
+					}
 				}
 				s.acked++
 			}
